@@ -41,7 +41,7 @@ const (
 
 // Config mirrors the CONSTANTS of Store.tla that change how the stores are wired.
 type Config struct {
-	BossMode       string `json:"bossMode"` // off | idxNull | conNoneNull | conCascadeNull
+	BossMode       string `json:"bossMode"` // off | idxNull | idxCascade | conNoneNull | conCascadeNull
 	TeamMode       string `json:"teamMode"` // off | idx | idxNull | idxCascade | conNone | conNoneNull | conCascade | conCascadeNull
 	ChildExtended  bool   `json:"childExtended"`
 	LinksViaEntity bool   `json:"linksViaEntity"` // people.teams also persisted through PersistEntity/SetLinkedIds
@@ -332,6 +332,8 @@ func New(cfg Config) *Stores {
 		people.AddFkConstraint(symBoss, true, boltz.CascadeNone)
 	case "conCascadeNull":
 		people.AddFkConstraint(symBoss, true, boltz.CascadeDelete)
+	case "idxCascade":
+		people.AddFkIndexCascadeDelete(symBoss, people.SymRep) // (not nullable: the first person is its own boss)
 	default:
 		panic(fmt.Sprintf("bad bossMode %q", cfg.BossMode))
 	}
